@@ -17,6 +17,8 @@
 (*   ifret  c x                 if c { return x }      (early return)      *)
 (*   loop   n op x y            v := x; for i := 0; i < n; i++ { v = v op y}*)
 (*   arr    x y z / idx A i / aset A i x      arrays of three elements     *)
+(*   asetl A i c / fsetl S k c                 a literal stored into an     *)
+(*                                             element / a field            *)
 (*   call   f x y -> (v, v+1)   a helper with two results                  *)
 (*   mk     x y / fld S k / fset S k x        a two-field struct           *)
 (* Values are [t, v]: a type and the unsigned representation of the value. *)
@@ -129,11 +131,11 @@ TypesOf(p, n) ==   \* sequence of the types of variables 1..2+n
                     [] s.k = "ifret" -> <<BT>>            \* defines a dummy copy of its condition
                     [] s.k = "arr" -> <<ArrT(ts[s.x])>>
                     [] s.k = "idx" -> <<ts[s.x][2]>>
-                    [] s.k = "aset" -> <<ts[s.x]>>
+                    [] s.k \in {"aset", "asetl"} -> <<ts[s.x]>>
                     [] s.k = "call" -> <<ts[s.x], ts[s.x]>>
                     [] s.k = "mk" -> <<StructT(ts[s.x], ts[s.y])>>
                     [] s.k = "fld" -> <<ts[s.x][s.c + 1]>>
-                    [] s.k = "fset" -> <<ts[s.x]>>
+                    [] s.k \in {"fset", "fsetl"} -> <<ts[s.x]>>
          IN ts \o t
 
 NVars(p) == Len(TypesOf(p, Len(p.stmts)))
@@ -182,11 +184,16 @@ AddStmt ==
           \/ "arr" \in Kinds /\ \E a \in arrs : \E i \in 0..2 : add(S("idx", a, 0, 0, "", <<>>, i))
           \/ "arr" \in Kinds /\ \E a \in arrs : \E i \in 0..2 : \E x \in {v \in ints : ts[v] = ts[a][2]} :
                 add(S("aset", a, x, 0, "", <<>>, i))
+          \* a literal stored into an element / a field (an untyped constant meets a narrower destination)
+          \/ "arr" \in Kinds /\ \E a \in arrs : \E i \in 0..2 : \E c \in {0, 1, 3} :
+                add(S("asetl", a, 0, c, "", <<>>, i))
           \/ "call" \in Kinds /\ \E x \in ints : \E y \in {v \in ints : ts[v] = ts[x]} : add(S("call", x, y, 0, "", <<>>, 0))
           \/ "struct" \in Kinds /\ \E x \in ints : \E y \in ints : add(S("mk", x, y, 0, "", <<>>, 0))
           \/ "struct" \in Kinds /\ \E s \in structs : \E k \in 1..2 : add(S("fld", s, 0, 0, "", <<>>, k))
           \/ "struct" \in Kinds /\ \E s \in structs : \E k \in 1..2 : \E x \in {v \in ints : ts[v] = ts[s][k + 1]} :
                 add(S("fset", s, x, 0, "", <<>>, k))
+          \/ "struct" \in Kinds /\ \E s \in structs : \E k \in 1..2 : \E c \in {0, 1, 3} :
+                add(S("fsetl", s, 0, c, "", <<>>, k))
     /\ UNCHANGED phase
 
 \* the program returns one integer variable; every early return must have that type
@@ -237,10 +244,12 @@ Exec(p, i, env) ==
                   [] s.k = "arr" -> <<[t |-> ArrT(x.t), v |-> <<x, y, env[s.z]>>]>>
                   [] s.k = "idx" -> <<x.v[s.c + 1]>>
                   [] s.k = "aset" -> <<[x EXCEPT !.v[s.c + 1] = y]>>
+                  [] s.k = "asetl" -> <<[x EXCEPT !.v[s.c + 1] = Wrap(x.t[2], s.z)]>>
                   [] s.k = "call" -> <<Bin("+", x, y), Bin("-", x, y)>>
                   [] s.k = "mk" -> <<[t |-> StructT(x.t, y.t), v |-> <<x, y>>]>>
                   [] s.k = "fld" -> <<x.v[s.c]>>
                   [] s.k = "fset" -> <<[x EXCEPT !.v[s.c] = y]>>
+                  [] s.k = "fsetl" -> <<[x EXCEPT !.v[s.c] = Wrap(x.t[s.c + 1], s.z)]>>
               IN Exec(p, i + 1, env \o new)
 
 Run(p, a, b) == LET r == Exec(p, 1, <<Val(p.ta, a), Val(p.tb, b)>>)
